@@ -48,6 +48,40 @@ ShrR(x, m)   == IF Cmp(m, OfInt(BitLen(x.d))) >= 0
 BitR(x, m)   == IF SmallMag(m) THEN ZBit(x, Val(m)) = 1 ELSE x.s < 0   \* far beyond the top: the sign extension
 SetBitR(x, m, v) == IF SmallMag(m) THEN ZSetBit(x, Val(m), v) ELSE x   \* far indices only generated as no-ops
 
+(* modular arithmetic.  Reductions are checked with untrusted quotient witnesses: x - q*m must land in [0, m). *)
+ReduceWith(x, m, q) ==
+    LET p == Mul(q, m) IN
+    IF Cmp(p, x) > 0 THEN [ok |-> FALSE, r |-> <<>>]
+    ELSE LET r == Sub(x, p) IN [ok |-> Cmp(r, m) < 0, r |-> r]
+\* |b|^|e| mod |m| by left-to-right square-and-multiply; hq = the quotients of every reduction, in order
+ModPowMag(b, e, m, hq) ==
+    LET bad == [ok |-> FALSE, s |-> <<>>, k |-> 0]
+        r0  == IF Len(hq) >= 1 THEN ReduceWith(b, m, hq[1]) ELSE [ok |-> FALSE, r |-> <<>>]
+        one == IF m = <<1>> THEN <<>> ELSE <<1>>
+        step(st, bit) ==
+            IF ~st.ok \/ st.k > Len(hq) THEN bad
+            ELSE LET sq == ReduceWith(Mul(st.s, st.s), m, hq[st.k]) IN
+                 IF bit = 0 THEN [ok |-> sq.ok, s |-> sq.r, k |-> st.k + 1]
+                 ELSE IF ~sq.ok \/ st.k + 1 > Len(hq) THEN bad
+                 ELSE LET ml == ReduceWith(Mul(sq.r, r0.r), m, hq[st.k + 1]) IN
+                      [ok |-> ml.ok, s |-> ml.r, k |-> st.k + 2]
+        fin == FoldLeft(step, [ok |-> r0.ok, s |-> one, k |-> 2], BitsMsb(e))
+    IN [ok |-> fin.ok /\ fin.k = Len(hq) + 1, r |-> fin.s]
+FailsModPow(e, m) == m.s = 0 \/ e.s < 0
+\* b^e mod m as the floor-mod representative: in [0, m) for m > 0, in (m, 0] for m < 0
+ModPowR(b, e, m, hq) ==
+    LET mp  == ModPowMag(b.d, e.d, m.d, hq)
+        neg == b.s < 0 /\ Bit(e.d, 0) = 1
+        t   == IF ~neg \/ mp.r = <<>> THEN mp.r ELSE Sub(m.d, mp.r)
+    IN [ok |-> mp.ok,
+        v  |-> IF m.s > 0 THEN ZNat(t) ELSE IF t = <<>> THEN ZZero ELSE Z(-1, Sub(m.d, t))]
+InModInterval(x, m) == IF m.s > 0 THEN x.s >= 0 /\ Cmp(x.d, m.d) < 0
+                       ELSE x.s <= 0 /\ Cmp(x.d, m.d) < 0
+\* Some(x): b*x = 1 + K*m with x in the interval (this alone implies gcd(b, m) = 1);
+\* None: a common divisor g > 1 with |b| = g*b1 and |m| = g*m1
+ModInvSomeOK(b, m, x, K) == InModInterval(x, m) /\ ZEq(ZSub(ZMul(b, x), ZOne), ZMul(K, m))
+ModInvNoneOK(b, m, hg)   == Cmp(hg[1], <<1>>) > 0 /\ Mul(hg[1], hg[2]) = b.d /\ Mul(hg[1], hg[3]) = m.d
+
 (* radix ranges *)
 FailsTextRadix(radix)  == radix < 2 \/ radix > 36
 FailsDigitRadix(radix) == radix < 2 \/ radix > 256
